@@ -22,13 +22,13 @@ IsSafe(cs)   == /\ Len(cs) >= 1
                 /\ \A i \in 1..Len(cs) : cs[i] \in SafeChars
                 /\ cs[1] \notin Digits
 
-\* what a CF-safe rendering of a raw name must look like: the sanitised name itself when that is
-\* already acceptable, otherwise the sanitised name behind a letter-initial prefix
+\* what a CF-safe rendering of a raw name must look like: only safe characters, not starting with a
+\* digit, and still recognisably that name -- the sanitised name itself, possibly behind a prefix
+\* (needed when the sanitised name starts with a digit; harmless otherwise)
 SafeOf(out, raw) ==
     LET s == Sanitize(raw) IN
     /\ IsSafe(out)
-    /\ IF Len(s) >= 1 /\ s[1] \in Letters THEN out = s
-       ELSE IsSuffix(s, out) /\ out[1] \in Letters
+    /\ IsSuffix(s, out)
 
 \* the raw column name of a collected result: <stream>.<module>.<test>
 RawName(r) == r.schars \o <<".">> \o r.pchars \o <<".">> \o r.tchars
@@ -80,7 +80,8 @@ FrameOK(frame, tb, cfg, names, o) ==
                   /\ \A c \in axis :
                         LET src == CASE c.name = <<"t","i","m","e">> -> tb.t [] c.name = <<"z">> -> tb.z
                                      [] c.name = <<"l","a","t">> -> tb.lat [] OTHER -> tb.lon
-                        IN  Len(src) = Len(c.vals) /\ \A i \in 1..Len(src) : c.vals[i] \in {src[i], NA},
+                        IN  IF src = <<>> THEN \A i \in 1..Len(c.vals) : c.vals[i] = NA      \* no such input: empty
+                            ELSE Len(src) = Len(c.vals) /\ \A i \in 1..Len(src) : c.vals[i] \in {src[i], NA},
       data    |-> /\ (~o.write_data => data = {})
                   /\ o.write_data => \A r \in R : \E c \in data :
                         /\ c.name = names[r.stream]
@@ -89,7 +90,7 @@ FrameOK(frame, tb, cfg, names, o) ==
 
 \* a frame that satisfies the property, built from the model itself (used by MC_Store to show that
 \* FrameOK is satisfiable on every instance, and as the reference of the naming rule)
-SpecSafe(raw) == LET s == Sanitize(raw) IN IF Len(s) >= 1 /\ s[1] \in Letters THEN s ELSE <<"v", "_">> \o s
+SpecSafe(raw) == LET s == Sanitize(raw) IN IF Len(s) >= 1 /\ s[1] \notin Digits THEN s ELSE <<"v", "_">> \o s
 SpecFrame(tb, cfg, names, o) ==
     LET R  == { r \in ResultsOf(tb, cfg, names) : Passes(r, o) }
         ax == IF o.write_axes /\ R # {}
